@@ -585,6 +585,17 @@ def field_values(p, texts):
 STEMS = ["vol", "pan", "gain", "mode", "tune", "cut", "res", "att", "dec", "sus", "rel", "lvl",
          "wet", "dry", "mix", "key", "osc2f", "p9v", "type", "shape", "b1t", "x", "yy", "Pz"]
 KIDS = ["part", "fx", "kit", "voice", "env", "lfo", "sub3", "q"]
+# long names (18..34 characters): with them an address alone takes 20..105 columns, so a saved line reaches the
+# 80 columns of the default print options right behind its address (the first array element / the only value
+# goes to a line of its own) or the address itself is longer than a line
+LONG_STEMS = ["amplitude_envelope_sustain_level", "filter_cutoff_frequency_tracking", "oscillator_two_fine_detune",
+              "stereo_pan_randomness", "velocity_sensing_function", "portamento_time_stretch_updown", "resonance_bandwidth_scale",
+              "harmonic_magnitude_profile_type", "lfo_start_phase_randomness", "global_fine_detune_cents_x",
+              "punch_strength_and_velocity", "unison_vibrato_speed_hz", "keyboard_shift_octaves", "Pminimal_note_key_limit",
+              "noise_generator_colour_tilt", "envelope_free_mode_points_dt", "formant_vowel_sequence_pos", "b1t_crusher_resolution_bits"]
+LONG_KIDS = ["additive_synth_voice_params", "effects_insertion_chain_unit", "modulation_matrix_routing_tab",
+             "sub_oscillator_harmonic_bank", "global_amplitude_envelope_gen", "frequency_lfo_parameters_set",
+             "kit_item_layer_settings", "padsynth_sample_builder_cfg"]
 SYMS = ["lin", "log", "exp", "off", "saw", "sqr", "tri", "Part1", "m_2", "hi5"]
 STR_ALPHA = [c for c in b'abcXYZ 019"\n%\\\'/#:,[]-_.\t']
 
@@ -610,6 +621,7 @@ def gen_level(rng, T, app, opts):
         n = "n%dq" % len(names)
         names.append(n)
         return n
+    STEMS, KIDS = (LONG_STEMS, LONG_KIDS) if opts.get("long_names") else (globals()["STEMS"], globals()["KIDS"])
     fids = list(KIND_OF_FID)
     rng.shuffle(fids)
     nleaf = rng.choice([1, 2, 3, 3, 4, 5, 6]) if T > 0 else rng.choice([2, 3, 4, 5, 6, 8])
